@@ -35,7 +35,7 @@ T2F == Cont("tuple", <<I1, F15>>)
 LI == Cont("list", <<I1, I0>>)
 P1 == Cont("tuple", <<I1, SA>>)
 P0 == Cont("tuple", <<I0, SE>>)
-ExtraObjs == {T3, T2F, LI, I2, Obj("str", "ab"), Cont("list", <<I1, I0, I2>>), Cont("tuple", <<I1, I0, I2>>),
+ExtraObjs == {Cont("tuple", <<I1, I0, SA>>), Cont("tuple", <<SA, I1>>), T3, T2F, LI, I2, Obj("str", "ab"), Cont("list", <<I1, I0, I2>>), Cont("tuple", <<I1, I0, I2>>),
               Cont("list", <<P1>>), Cont("list", <<P1, P0>>), Cont("tuple", <<P1, P0>>), Cont("set", <<I1, I0>>),
               Cont("dict", <<KV(SA, Cont("list", <<I1>>))>>), Cont("dict", <<KV(SA, I1), KV(SB, I0)>>),
               Cont("list", <<SA, SB>>), Cont("list", <<NONE, I1>>), Cont("tuple", <<SA, I1, I0>>)}
@@ -55,14 +55,34 @@ ParamTypes ==
      Union(<<TIS, Known(NONE)>>), Generic("list", <<TIS>>), Generic("tuple", <<TIS>>),
      Generic("dict", <<Typed("str"), Generic("list", <<Typed("int")>>)>>), Generic("set", <<Typed("int")>>),
      Generic("list", <<Union(<<Typed("int"), Known(NONE)>>)>>), Generic("Iterable", <<Typed("str")>>),
+     SeqT("tuple", <<Many(Typed("int")), One(Typed("str"))>>),
      \* TypedDicts with a NotRequired key
      TD(<<EntX("a", FALSE, FALSE, Typed("int")), Ent("b", TRUE, Typed("str"))>>), TD(<<EntX("a", FALSE, FALSE, Typed("int"))>>)}
+
+\* The indexing slice: a literal index / slice at every position -3..3 of x, and of displays / lists that contain an
+\* unpacked part (*x) before, between or after single members (the impl _sequence_common_getitem_impl)
+IndexExprsX ==
+    {"x[0]", "x[1]", "x[2]", "x[3]", "x[-1]", "x[-2]", "x[-3]", "x[0:1]", "x[1:]", "x[:-1]", "x[1:2]", "x[-2:]",
+     "[*x, 1][0]", "[*x, 1][1]", "(*x, 1)[0]", "(*x, 1, 'a')[1]", "(*x, 1, 'a')[0]", "(None, *x, 1)[1]", "(None, *x, 1)[2]",
+     "(None, *x)[1]", "(*x, 1)[-1]", "(*x, 1)[-2]", "(*x, 1, 'a')[-2]", "(*x, 1, 'a')[-3]", "[*x, None][0]", "(*x, None)[0]",
+     "[1, *x, None][1]", "[1, *x, None][2]", "[1, *x, None][-2]", "(*x, *x, 1)[0]", "[*x, 1][0:1]", "(*x, 1, 'a')[0:2]",
+     "(1, *x)[-1]", "(1, 'a', *x)[2]", "[*x][0]", "(*x,)[-1]"}
+IndexExprsY ==
+    {"[*x, y][0]", "(*x, y)[0]", "(*x, y)[1]", "(y, *x, y)[1]", "(y, *x)[1]", "(*x, y)[-1]", "(*x, y)[-2]", "(y, *x, y)[-2]",
+     "[*x, y][0:1]", "[y, *x][-1]"}
+\* the same through a local / through the mutated list (one line, several statements)
+IndexLinesX ==
+    {"v = [*x, 1]; v = v[0]", "v = (*x, 1, 'a'); v = v[1]", "v = (*x, 1, 'a'); v = v[0:1]", "v = [*x, None]; v = v[-1]",
+     "v = (*x, 1, 'a'); v = v[-3]", "v = (None, *x, 1); v = v[1]", "m.extend(x); m.append(1); v = m[0]",
+     "m.extend(x); m.append(None); v = m[1]", "m += x; m.append('a'); v = m[0]", "m.append(1); m.extend(x); m.append(None); v = m[1]",
+     "m.extend(x); m.append(1); v = m[-1]", "m.extend(x); m.append(1); v = m[-2]", "m.extend(x); m.append(1); v = m[0:1]"}
+IndexLinesY == {"v = [*x, y]; v = v[0]", "m.extend(x); m.append(y); v = m[0]", "v = (*x, y); v = v[1]", "v = (y, *x, y); v = v[1]"}
 
 (***************************************************************************)
 (* Catalogues.  *X: tokens that do not mention y; *Y: tokens that do (the   *)
 (* generator varies TY only for bodies that mention y).                     *)
 (***************************************************************************)
-ExprsX ==
+ExprsX == IndexExprsX \cup
     {"x", "v", "1", "'a'", "None", "[x]", "{'k': x}", "x[0]", "x[-1]", "x[1]", "x[-2]", "v[0]", "len(x)",
      "ident(x)", "first(x)", "maybe(x)", "tolist(x)", "x + 1", "x['a']", "(not x)", "x.value", "x[0:1]", "-x", "str(x)",
      \* locals written by unpacking / loops / walrus / with / match captures
@@ -105,7 +125,7 @@ ExprsX ==
      \* methods, properties, class / static methods of a small generic class
      "Box(x).get()", "Box(x).item", "Box(x).pair(1)", "Box.make(x).get()", "Box(x).first", "Box(x).map(str).get()",
      "Box(x).same().get()", "Pt(x, 1).px", "Pt(x, 1).both()", "Pt(1, x).py"}
-ExprsY ==
+ExprsY == IndexExprsY \cup
     {"y", "(x, y)", "pair(x, y)", "x + y", "(x if y else v)", "(x or y)", "(x and y)", "(x == y)", "(*x, y)", "(x, *y)",
      "x[y]", "x.get(y)", "x.get('a', y)", "{'k': x, 'j': y}['j']", "{'k': x, 'j': y}", "min(x, y)", "max(x, y)", "list(zip(x, y))",
      "x * y", "x - y", "(x is y)", "(x in y)", "(x < y)", "[*x, y]", "[*x, *y]", "(*x, *y)", "[(q, y) for q in x]",
@@ -160,13 +180,13 @@ AugOps == {"+=", "*=", "-=", "|="}
 AugTargets == {"v", "x", "a"}
 AugExprsX == {"1", "x", "'a'", "[x]", "(x,)", "1.5", "v", "x[0]", "[None]", "2"}
 AugExprsY == {"y", "[y]", "(y,)", "(x, y)"}
-MutLinesX == {"m.append(x)", "m.append(1)", "m.extend(x)", "m.append(None)", "m += [x]", "m.extend([x, 1])",
+MutLinesX == IndexLinesX \cup {"m.append(x)", "m.append(1)", "m.extend(x)", "m.append(None)", "m += [x]", "m.extend([x, 1])",
               "d['k'] = x", "d['j'] = 1", "d.setdefault('k', x)", "d.update({'z': x})", "d.pop('k', None)", "d['k'] = [x]",
               "d.update(k=x)", "del d['k']", "m.append((x, 1))", "m.append([x])", "d['k'] = None",
               "d.update({'a': 1} if x else {})", "d.setdefault('a', 1)",
               \* mutators without an impl function (class unmodelled-container-mutator)
               "m.insert(0, x)", "m[0] = x", "m.clear()"}
-MutLinesY == {"m.append(y)", "d['j'] = y", "d.setdefault('j', y)", "m.extend([x, y])", "d.update({'k': x, 'j': y})", "m += [y]"}
+MutLinesY == IndexLinesY \cup {"m.append(y)", "d['j'] = y", "d.setdefault('j', y)", "m.extend([x, y])", "d.update({'k': x, 'j': y})", "m += [y]"}
 ForTargets == {"e", "a, b", "a, *rest", "(a, b), c", "e, a"}
 ForItersX == {"{**({'a': 1} if x else {}), 'b': 2}", "{**x}", "{**d}", "x", "(x, 1)", "(1, 'a')", "v", "x[0:1]", "[x]", "range(2)", "tolist(x)", "enumerate(x)", "x.items()", "x.values()",
               "reversed(x)", "sorted(x)", "m", "d", "(x, None)", "[(x, 1)]", "rest", "x[0]", "x.keys()", "d.items()", "list(x)",
@@ -188,7 +208,12 @@ CONSTANTS MaxStmts, MaxDepth,
           Slice      \* "all", or "narrow": the narrowing slice (every test / every pattern pair, bodies that just read x)
 
 \* the catalogues of the slice
-ExprsXS == IF Slice = "narrow" THEN {"x"} ELSE ExprsX
+ExprsXS == IF Slice = "narrow" THEN {"x"} ELSE IF Slice = "index" THEN IndexExprsX ELSE ExprsX
+ExprsYS == IF Slice = "index" THEN IndexExprsY ELSE ExprsY
+MutXS == IF Slice = "index" THEN IndexLinesX ELSE MutLinesX
+MutYS == IF Slice = "index" THEN IndexLinesY ELSE MutLinesY
+\* in the indexing slice y only supplies one more element: a type whose only member (None) lies outside every element type
+TypesY == IF Slice = "index" THEN {Typed("NoneType")} ELSE ParamTypes
 Patterns2 == IF Slice = "narrow" THEN {"_", "a", "int()", "str()", "None", "(a, b)"} ELSE PatternsX
 MatchSubjectsXS == IF Slice = "narrow" THEN {"x"} ELSE MatchSubjectsX
 
@@ -239,13 +264,13 @@ More(t, y) == /\ pend' = Append(pend, t) /\ usesy' = (usesy \/ y) /\ UNCHANGED <
 AddSimple ==
     /\ done = "gen"
     /\ \/ pick = "assign-v" /\ \/ \E e \in ExprsXS : PushStmt(Line("v = " \o e), FALSE)
-                               \/ \E e \in YSet(ExprsY) : PushStmt(Line("v = " \o e), TRUE)
+                               \/ \E e \in YSet(ExprsYS) : PushStmt(Line("v = " \o e), TRUE)
        \/ pick = "assign-x" /\ \/ \E e \in ExprsXS : PushStmt(Line("x = " \o e), FALSE)
-                               \/ \E e \in YSet(ExprsY) : PushStmt(Line("x = " \o e), TRUE)
+                               \/ \E e \in YSet(ExprsYS) : PushStmt(Line("x = " \o e), TRUE)
        \/ pick = "expr" /\ \/ \E e \in ExprsXS : PushStmt(Line(e), FALSE)
-                           \/ \E e \in YSet(ExprsY) : PushStmt(Line(e), TRUE)
+                           \/ \E e \in YSet(ExprsYS) : PushStmt(Line(e), TRUE)
        \/ pick = "return" /\ \/ \E e \in ExprsXS : PushStmt(Jump("return " \o e), FALSE)
-                             \/ \E e \in YSet(ExprsY) : PushStmt(Jump("return " \o e), TRUE)
+                             \/ \E e \in YSet(ExprsYS) : PushStmt(Jump("return " \o e), TRUE)
        \/ pick = "unpack" /\ pend = << >> /\ \E t \in UnpackTargets : More(t, FALSE)
        \/ pick = "unpack" /\ pend # << >> /\ \/ \E e \in UnpackExprsX : PushStmt(Line(pend[1] \o " = " \o e), FALSE)
                                              \/ \E e \in YSet(UnpackExprsY) : PushStmt(Line(pend[1] \o " = " \o e), TRUE)
@@ -256,8 +281,8 @@ AddSimple ==
                              \/ \E t \in YSet(TestsY) : PushStmt(Line("assert " \o t), TRUE)
        \/ pick = "save" /\ \/ \E t \in TestsX : PushStmt(Line("ok = " \o t), FALSE)
                            \/ \E t \in YSet(TestsY) : PushStmt(Line("ok = " \o t), TRUE)
-       \/ pick = "mut" /\ \/ \E t \in MutLinesX : PushStmt(Line(t), FALSE)
-                          \/ \E t \in YSet(MutLinesY) : PushStmt(Line(t), TRUE)
+       \/ pick = "mut" /\ \/ \E t \in MutXS : PushStmt(Line(t), FALSE)
+                          \/ \E t \in YSet(MutYS) : PushStmt(Line(t), TRUE)
        \/ pick = "loopjump" /\ \E t \in JumpLines : PushStmt(Jump(t), FALSE)
        \/ pick = "raise" /\ \E t \in RaiseLines : PushStmt(Jump(t), FALSE)
 
@@ -313,7 +338,7 @@ Finish == done = "gen" /\ pick = "finish" /\ done' = "typex" /\ pick' = "" /\ UN
 \* the parameter types are chosen last (one per step); TY only matters if the body mentions y
 ChooseTypes ==
     \/ done = "typex" /\ (\E ta \in ParamTypes : tx' = ta) /\ done' = "typey" /\ UNCHANGED <<stack, n, ty, pick, pend, usesy>>
-    \/ done = "typey" /\ (\E tb \in IF usesy THEN ParamTypes ELSE {Typed("int")} : ty' = tb) /\ done' = "done"
+    \/ done = "typey" /\ (\E tb \in IF usesy THEN TypesY ELSE {Typed("int")} : ty' = tb) /\ done' = "done"
        /\ UNCHANGED <<stack, n, tx, pick, pend, usesy>>
 
 MNext == Choose \/ AddSimple \/ Open \/ NextPart \/ Close \/ Finish \/ ChooseTypes
@@ -335,7 +360,7 @@ ArgsFor(T) == SetToSeq({o \in ArgObjs : Member(o, T) /\ DeclaredKeysOnly(o, T)
                                          /\ (EqSafe(o) \/ (o.c = "bool" /\ T = Typed("bool")))})
 
 \* (a constant: TLC evaluates it once)
-ArgsTable == [T \in ParamTypes |-> ArgsFor(T)]
+ArgsTable == [T \in ParamTypes \cup {Typed("NoneType")} |-> ArgsFor(T)]
 
 \* the declared types are inhabited (otherwise no execution would be observed)
 Inhabited == \A T \in ParamTypes : ArgsTable[T] # << >>
